@@ -231,6 +231,14 @@ func c09RunAdapter(t *testing.T, ops []string, o *Out) {
 	}
 }
 
+// c09PrintAcks prints what the adapter answered to one feedback packet.
+func c09PrintAcks(P func(string, ...any), acks []verifhooks.Acknowledgment) {
+	P("acks n=%d", len(acks))
+	for _, a := range acks {
+		P("a seq=%d ssrc=%d size=%d dep=%s arr=%s ecn=%d", a.SequenceNumber, a.SSRC, a.Size, c09ZS(a.Departure), c09ZS(a.Arrival), a.ECN)
+	}
+}
+
 // c09AdapterFeedbackOp executes the ops of `fbadapter` that READ the adapter (twcc, ccfb, len); false = not one of them.
 func c09AdapterFeedbackOp(fa *verifhooks.FeedbackAdapter, name string, m map[string]string, P func(string, ...any)) bool {
 	printAcks := func(acks []verifhooks.Acknowledgment) {
@@ -246,7 +254,11 @@ func c09AdapterFeedbackOp(fa *verifhooks.FeedbackAdapter, name string, m map[str
 			P("bad-op")
 			return true
 		}
+		was := rtcpTexts([]rtcp.Packet{fb})
 		acks, err := fa.OnTransportCCFeedback(time.Time{}, fb)
+		if now := rtcpTexts([]rtcp.Packet{fb}); now[0] != was[0] {
+			P("INPUT-REWRITTEN OnTransportCCFeedback: the feedback was [%s] and is now [%s]", strings.ReplaceAll(was[0], " ", "_"), strings.ReplaceAll(now[0], " ", "_"))
+		}
 		if err != nil {
 			P("err:invalid")
 			return true
@@ -346,7 +358,9 @@ func c09RunRtpfb(t *testing.T, ops []string, o *Out) {
 				P("bad-op")
 				continue
 			}
+			was := rtcpTexts([]rtcp.Packet{fb})
 			acks := rtpfb.VerifConvertTWCC(fb)
+			o.CheckRTCPTexts(who, "convertTWCC", was, []rtcp.Packet{fb}) // the feedback is input: the next consumer decodes it too
 			P("acks n=%d", len(acks))
 			for _, a := range acks {
 				P("%s", showAck(a))
@@ -357,7 +371,9 @@ func c09RunRtpfb(t *testing.T, ops []string, o *Out) {
 				P("bad-op")
 				continue
 			}
+			was := rtcpTexts([]rtcp.Packet{fb})
 			d, res := rtpfb.VerifConvertCCFB(c09ZT(m["now"]), fb)
+			o.CheckRTCPTexts(who, "convertCCFB", was, []rtcp.Packet{fb})
 			P("delay=%d streams=%d", int64(d), len(res))
 			ssrcs := []uint32{}
 			for s := range res {
@@ -452,7 +468,10 @@ func c09RunRtpfb(t *testing.T, ops []string, o *Out) {
 			pe.queue = nil
 			wants := pe.wants
 			pe.wants = map[c09WantKey]time.Time{}
+			was := rtcpTexts(pk)
 			rtt, prs := rtpfb.VerifProcessFeedback(pe.ic, ts, pk)
+			// the parsed packets are shared with every other RTCP reader of a chain (Attributes.GetRTCPPackets): input
+			o.CheckRTCPTexts(who, "processFeedback", was, pk)
 			if len(prs) == 0 {
 				P("report none")
 				continue
@@ -720,7 +739,80 @@ func c09RecorderCCFB(r *Rng, rec *rfc8888.Recorder, sent []c09Sent, now time.Tim
 	return []string{c09CCFBOp(fb, now, adapter)}
 }
 
-var c09AdapterClasses = []string{"twcc-hand", "twcc-recorder", "twcc-inflight", "ccfb-hand", "ccfb-recorder", "mixed", "resend"}
+var c09AdapterClasses = []string{"twcc-hand", "twcc-recorder", "twcc-inflight", "ccfb-hand", "ccfb-recorder", "mixed", "resend", "ccfb-collide"}
+
+// c09SSRCPool draws n distinct non-zero SSRCs of concurrent streams with deliberate PARTIAL collisions.  "Each
+// acknowledgement is attributed to the right sent packet" quantifies over all 32-bit SSRCs; an SSRC is a random number
+// chosen by the peer, and whatever a history does with it (hash it, pack it into a key next to the sequence number,
+// truncate it) two streams may agree in any part of it: equal low 16 bits, equal low 8 bits, equal high 16 bits, the
+// two halves swapped, only the top bit different, low 16 bits zero (next to a transport-wide stream, whose packets
+// the adapter stores under SSRC 0), 0xFFFFFFFF, 0x80000000, a small number equal to another one's low half.
+func c09SSRCPool(r *Rng, n int) []uint32 {
+	base := uint32(r.U64())
+	if r.Chance(1, 4) {
+		base = []uint32{1, 0xFFFFFFFF, 0x80000000, 0x00010000, 0x0001FFFF, 0x7FFFFFFF}[r.Intn(6)]
+	}
+	out := []uint32{}
+	have := map[uint32]bool{0: true}
+	add := func(x uint32) {
+		if !have[x] && len(out) < n {
+			have[x] = true
+			out = append(out, x)
+		}
+	}
+	if r.Chance(3, 4) {
+		add(base)
+	}
+	for tries := 0; len(out) < n && tries < 100; tries++ {
+		ref := base
+		if len(out) > 0 && r.Bool() {
+			ref = out[r.Intn(len(out))]
+		}
+		switch r.Intn(11) {
+		case 0, 1:
+			add(ref ^ uint32(r.Range(1, 0xFFFF))<<16) // equal low 16 bits
+		case 2:
+			add(ref ^ uint32(r.Range(1, 0xFFFFFF))<<8) // equal low 8 bits
+		case 3:
+			add(ref ^ uint32(r.Range(1, 0xFFFF))) // equal high 16 bits
+		case 4:
+			add(uint32(r.Range(1, 0xFFFF)) << 16) // low 16 bits zero
+		case 5:
+			add(0xFFFFFFFF)
+		case 6:
+			add(0x80000000)
+		case 7:
+			add(ref ^ 0x80000000)
+		case 8:
+			add(ref>>16 | ref<<16)
+		case 9:
+			add(ref & 0xFFFF)
+		default:
+			add(uint32(r.U64()))
+		}
+	}
+	for len(out) < n {
+		add(uint32(r.U64()))
+	}
+	return out
+}
+
+// c09FullCCFB: an RFC 8888 report with one block per SSRC (in the given order) that covers [begin, begin+n) of each.
+func c09FullCCFB(r *Rng, ssrcs []uint32, begin, n int, now time.Time, adapter bool) string {
+	fb := &rtcp.CCFeedbackReport{ReportTimestamp: verifhooks.ToNTP32(now)}
+	for _, s := range ssrcs {
+		rb := rtcp.CCFeedbackReportBlock{MediaSSRC: s, BeginSequence: uint16(begin)}
+		for i := 0; i < n; i++ {
+			mb := rtcp.CCFeedbackMetricBlock{}
+			if r.Chance(5, 6) {
+				mb = rtcp.CCFeedbackMetricBlock{Received: true, ECN: rtcp.ECN(r.Intn(4)), ArrivalTimeOffset: uint16(r.Intn(0x1FFE))}
+			}
+			rb.MetricBlocks = append(rb.MetricBlocks, mb)
+		}
+		fb.ReportBlocks = append(fb.ReportBlocks, rb)
+	}
+	return c09CCFBOp(fb, now, adapter)
+}
 
 func c09GenAdapter(r *Rng, tier string, idx int) Case {
 	cl := c09AdapterClasses[idx%len(c09AdapterClasses)]
@@ -878,6 +970,70 @@ func c09GenAdapter(r *Rng, tier string, idx int) Case {
 				ops = append(ops, sendOp(keys[r.Intn(len(keys))])) // re-sent once more
 			}
 		}
+	case "ccfb-collide":
+		// Several RFC 8888 streams (and, in half of the cases, a transport-wide stream) on ONE adapter; the SSRCs
+		// collide partially (c09SSRCPool) and all streams use the SAME sequence numbers inside the history window.
+		// Every packet has its own size and departure instant, so an acknowledgement attributed to the packet of
+		// another stream shows in both.
+		ssrcs := c09SSRCPool(r, r.Range(2, 4))
+		withTW := r.Bool()
+		start := r.Pick(0, 7, 65530, 65535, r.Intn(65536))
+		begin := map[uint32]int{}
+		for _, s := range ssrcs {
+			begin[s] = start
+		}
+		total := r.Pick(r.Range(2, 12), r.Range(10, 60), r.Range(10, 60), r.Range(200, 260))
+		per := max(1, total/(len(ssrcs)+c04b(withTW)))
+		for i := 0; i < per; i++ {
+			// packet i of every stream, in a fresh order each time
+			order := append([]uint32{}, ssrcs...)
+			if withTW {
+				order = append(order, 0)
+			}
+			for k := len(order) - 1; k > 0; k-- {
+				j := r.Intn(k + 1)
+				order[k], order[j] = order[j], order[k]
+			}
+			for _, s := range order {
+				if r.Chance(1, 10) {
+					continue // this stream skips the number
+				}
+				ms += int64(r.Range(1, 9))
+				if s == 0 {
+					ops = append(ops, fmt.Sprintf("sent tw=%d size=%d t=%s", (start+i)&0xFFFF, r.Range(1, 1400), c09ZS(c09At(ms))))
+				} else {
+					ops = append(ops, fmt.Sprintf("sent ssrc=%d seq=%d size=%d t=%s", s, (start+i)&0xFFFF, r.Range(1, 1400), c09ZS(c09At(ms))))
+				}
+			}
+			if r.Chance(1, 12) {
+				ops = append(ops, "ccfb "+c09HandCCFB(r, ssrcs, begin, c09At(ms+20), true))
+			}
+			if r.Chance(1, 20) {
+				ops = append(ops, "len")
+			}
+		}
+		ops = append(ops, "len")
+		for k := r.Range(1, 3); k > 0; k-- {
+			// every stream about the same numbers, one stream per report or all in one
+			lo := r.Range(-2, max(0, per-1))
+			n := r.Range(1, min(per-lo+1, 40))
+			if r.Bool() {
+				ops = append(ops, "ccfb "+c09FullCCFB(r, ssrcs, start+lo, n, c09At(ms+30), true))
+			} else {
+				for _, s := range ssrcs {
+					ops = append(ops, "ccfb "+c09FullCCFB(r, []uint32{s}, start+lo, n, c09At(ms+30), true))
+				}
+			}
+			if withTW {
+				ds := make([]int, n)
+				for i := range ds {
+					ds[i] = r.Range(0, 255) * 250
+				}
+				ops = append(ops, fmt.Sprintf("twcc base=%d cnt=%d ref=%d chunks=R1x%d deltas=%s", (start+lo)&0xFFFF, n, r.Intn(1<<24), n, joinInts(ds)))
+			}
+			ops = append(ops, "ccfb "+c09HandCCFB(r, ssrcs, begin, c09At(ms+40), true))
+		}
+		ops = append(ops, "len")
 	case "ccfb-recorder":
 		rec := rfc8888.NewRecorder()
 		ssrcs := []uint32{uint32(r.Range(1, 5)), uint32(r.Range(6, 9))}
@@ -906,10 +1062,10 @@ func c09GenAdapter(r *Rng, tier string, idx int) Case {
 }
 
 var c09RtpfbClasses = []string{"conv-twcc", "conv-ccfb", "twcc-recorder", "ccfb-recorder", "twcc-hand", "ccfb-hand", "history", "inflight", "idle-reads",
-	"ccfb-skew", "twin", "twin"}
+	"ccfb-skew", "ccfb-collide", "twin", "twin"}
 
 // the classes a twin case is made of (everything that goes through an interceptor's history)
-var c09TwinBases = []string{"twcc-recorder", "ccfb-recorder", "twcc-hand", "ccfb-hand", "history", "idle-reads", "ccfb-skew", "inflight"}
+var c09TwinBases = []string{"twcc-recorder", "ccfb-recorder", "twcc-hand", "ccfb-hand", "history", "idle-reads", "ccfb-skew", "inflight", "ccfb-collide"}
 
 func c09GenRtpfb(r *Rng, tier string, idx int) Case {
 	cl := c09RtpfbClasses[idx%len(c09RtpfbClasses)]
@@ -1062,6 +1218,74 @@ func c09GenRtpfbClass(r *Rng, cl string) []string {
 			for _, s := range ssrcs {
 				begin[s] = seq[s] - r.Range(0, 10)
 			}
+		}
+	case "ccfb-collide":
+		// concurrent streams whose SSRCs collide partially (c09SSRCPool), all on the SAME sequence numbers; in half of
+		// the cases one of them is a transport-wide stream whose transport-wide numbers are those numbers again
+		ssrcs := c09SSRCPool(r, r.Range(2, 4))
+		tws := uint32(0)
+		if r.Bool() {
+			tws = ssrcs[len(ssrcs)-1]
+			ssrcs = ssrcs[:len(ssrcs)-1]
+		}
+		start := r.Pick(0, 7, 65530, 65535, r.Intn(65536))
+		begin := map[uint32]int{}
+		for _, s := range ssrcs {
+			begin[s] = start
+		}
+		i := 0
+		for rounds := r.Range(1, 3); rounds > 0; rounds-- {
+			first := i
+			for n := r.Pick(r.Range(1, 6), r.Range(5, 40), r.Range(5, 40), r.Range(80, 120)); n > 0; n-- {
+				order := append([]uint32{}, ssrcs...)
+				if tws != 0 {
+					order = append(order, tws)
+				}
+				for k := len(order) - 1; k > 0; k-- {
+					j := r.Intn(k + 1)
+					order[k], order[j] = order[j], order[k]
+				}
+				for _, s := range order {
+					if r.Chance(1, 10) {
+						continue
+					}
+					ms += int64(r.Range(1, 9))
+					if s == tws {
+						ops = append(ops, sendOp(s, start+i, true, start+i, r.Range(1, 1200)))
+					} else {
+						ops = append(ops, sendOp(s, start+i, false, -1, r.Range(1, 1200)))
+					}
+				}
+				i++
+			}
+			ms += 50
+			for k := r.Range(1, 2); k > 0; k-- {
+				lo := first + r.Range(-2, max(0, i-first-1))
+				n := r.Range(1, min(i-lo+1, 40))
+				if r.Bool() {
+					ops = append(ops, "q ccfb "+c09FullCCFB(r, ssrcs, start+lo, n, c09At(ms), false))
+				} else {
+					for _, s := range ssrcs {
+						ops = append(ops, "q ccfb "+c09FullCCFB(r, []uint32{s}, start+lo, n, c09At(ms), false))
+						if r.Chance(1, 3) {
+							ops = append(ops, "fb now="+c09ZS(c09At(ms)))
+						}
+					}
+				}
+				if tws != 0 && r.Bool() {
+					ds := make([]int, n)
+					for j := range ds {
+						ds[j] = r.Range(0, 255) * 250
+					}
+					ops = append(ops, fmt.Sprintf("q twcc base=%d cnt=%d ref=%d chunks=R1x%d deltas=%s", (start+lo)&0xFFFF, n, r.Intn(1<<24), n, joinInts(ds)))
+				}
+				if r.Chance(1, 3) {
+					ops = append(ops, "q ccfb "+c09HandCCFB(r, ssrcs, begin, c09At(ms), false))
+				}
+				ops = append(ops, "fb now="+c09ZS(c09At(ms)))
+				ms += int64(r.Range(1, 30))
+			}
+			ops = append(ops, "hsizes")
 		}
 	case "history": // arbitrary interleavings of addOutgoing / onFeedback / buildReport
 		tw := r.Pick(0, 65530)
